@@ -10,12 +10,12 @@ Definition rMinus : rx := RCls [(45%N, 45%N)] false.
 Definition rComma : rx := RCls [(44%N, 44%N)] false.
 Definition rInt : rx := RCat (RAlt REps rMinus) (RCat rD (RStar rD)).
 
-Lemma shape1 : rx_re_range_stop = {| p_body := rInt; p_end := true |}.
+Lemma shape1 : rx_re_range_stop = {| p_body := rInt; p_end := true; p_multi := false |}.
 Proof. reflexivity. Qed.
-Lemma shape2 : rx_re_range_start_stop = {| p_body := RCat rInt (RCat rComma rInt); p_end := true |}.
+Lemma shape2 : rx_re_range_start_stop = {| p_body := RCat rInt (RCat rComma rInt); p_end := true; p_multi := false |}.
 Proof. reflexivity. Qed.
 Lemma shape3 : rx_re_range_start_stop_step
-               = {| p_body := RCat rInt (RCat rComma (RCat rInt (RCat rComma rInt))); p_end := true |}.
+               = {| p_body := RCat rInt (RCat rComma (RCat rInt (RCat rComma rInt))); p_end := true; p_multi := false |}.
 Proof. reflexivity. Qed.
 
 (* ---- single characters *)
@@ -198,9 +198,9 @@ Qed.
 
 Lemma end_match body n :
   (forall t, lang body t <-> parts_ok n t = true) ->
-  forall w, re_match {| p_body := body; p_end := true |} w = parts_ok n (chop_nl w).
+  forall w, re_match {| p_body := body; p_end := true; p_multi := false |} w = parts_ok n (chop_nl w).
 Proof.
-  intros B w. unfold re_match. cbn [p_end p_body].
+  intros B w. unfold re_match. cbn [p_end p_body p_multi].
   assert (FM : forall t, fullmatch body t = parts_ok n t).
   { intros t. destruct (fullmatch body t) eqn:E.
     - apply fullmatch_iff in E. apply B in E. auto.
